@@ -252,7 +252,8 @@ impl Acc {
         for (k, v) in o.counters {
             *self.counters.entry(k).or_insert(0) += v;
         }
-        const CAP: usize = 4_000_000;
+        // per-worker cap; distinct counts are therefore conservative (under-counted) on huge batches
+        const CAP: usize = 600_000;
         for s in o.sigs {
             if self.sigs.len() < CAP {
                 self.sigs.insert(s);
